@@ -84,6 +84,28 @@ CHECKS.update({
     },
 })
 
+CHECKS.update({
+    "C06": {
+        "technique": "deterministic simulation with fault injection: fault-scripted readers (error / truncation / EOF-with-data / stalls / short reads / close error at drawn offsets) over zjson, zhttp and zenv, recycled pools after aborted calls; plus seeded Go-value generation (reported separately); recover() monitor",
+        "text": "Half of the worlds drive the front ends with schema-shaped and hostile JSON documents, forms, query strings and environments through a reader whose every Read is scripted by the simulator, on pools recycled after histories that include calls aborted by injected callback panics. The other half feeds Go values of any dynamic type at every input position and schema keys longer than 32 bytes; this half involves no schedule or fault and is plain seeded generation, reported as such. Oracle: recover() and a step cap.",
+        "note": TRUST + "the generator never builds a schema/destination mismatch, so every panic is a violation.",
+        "design": "DESIGN.md §3 C06",
+    },
+    "C14": {
+        "technique": "deterministic simulation: one logical record rendered to six front ends over readers with simulator-scripted benign behaviours, process environment as a simulator-owned store; relational oracle across front ends",
+        "text": "One generated logical record is rendered as Go map, JSON (zjson, zhttp), form, query and environment using each source's tag rules, delivered through scripted readers (chunking, one-byte reads, EOF-with-data, stalls) with permuted key order; destinations and issue multisets must agree across front ends up to the documented differences. One open finding (F-NESTED-FLAT) is reported as KNOWN-FINDING.",
+        "note": REL,
+        "design": "DESIGN.md §3 C14",
+    },
+    "C15": {
+        "level": "fault_enumeration",
+        "technique": "deterministic simulation with enumerated fault injection: for every generated request, truncation / read error / error-with-data at EVERY byte offset of the body under two chunkings (one replayable world each); dispatch table + decode-failure contract",
+        "text": "Requests over method x Content-Type x parameters x body class with distinct sentinel values per source; for each request the body reader's fault space (three fault kinds at every byte offset, two chunkings, close errors) is enumerated completely, one world per point. The documented dispatch is read off the sentinels by comparing with the chosen source's record parsed through the plain map front end; undecodable bodies must give exactly one top-level invalid_json/invalid_form issue, no schema callback and an untouched destination.",
+        "note": TRUST + "net/http and encoding/json define what 'decodable' means for a delivered prefix; the harness computes the shortest complete JSON prefix itself.",
+        "design": "DESIGN.md §3 C15",
+    },
+})
+
 NOT_APPLICABLE = {
     "C03": "pure function of (schema options, input): no schedule, history, fault or shared state enters it; DESIGN.md §4",
     "C17": "builder-time semantics, a pure function of the chain of builder calls; nothing nondeterministic or faulty to simulate; DESIGN.md §4",
